@@ -696,6 +696,57 @@ NULLCOL_IDIOMS = {
 }
 
 
+def _null_cols_by_terms(m, fn):
+    """remove_null_cols interpreted on the term domain of vcheck/termexec.py for 1, 2 and 3 matrices (every path of the
+    undecidable isinstance tests): -> (index-set idiom accepted, same set everywhere and returned last, element k from
+    argument k, idiom text, what was returned), or None when the interpreter met a construct it does not model or the
+    function looks at the number of matrices (then the three lengths say nothing about a fourth)."""
+    from .termexec import Exec, Term, Stop
+    for n in ast.walk(fn):
+        if isinstance(n, ast.Call) and dotted(n.func) == 'len':
+            return None
+        if isinstance(n, ast.Constant) and isinstance(n.value, int) and not isinstance(n.value, bool) and abs(n.value) > 1 \
+                and not any(isinstance(p, ast.Call) and dotted(p.func) in ('log', 'msg', 'warn') and n in ast.walk(p) for p in ast.walk(fn)):
+            return None
+    helpers = {k: v for k, v in m.functions.items() if k != fn.name} if hasattr(m, 'functions') else {}
+    ex = Exec(fn, helpers=helpers)
+    squash = lambda t: t.replace(' ', '')
+    ok = ok2 = ok3 = True
+    idioms, shown = set(), None
+    pats = [re.compile(r'^A(\d)\[(.+),:\]\[:,(.+)\]$'), re.compile(r'^A(\d)\[:,(.+)\]\[(.+),:\]$'), re.compile(r'^A(\d)\[(.+)\]\[:,(.+)\]$')]
+    for N in (1, 2, 3):
+        args = [Term(ast.Name(id='A%d' % k, ctx=ast.Load())) for k in range(N)]
+        for choices, val, tests in ex.results(args, {'silent': Term(ast.Name(id='SILENT', ctx=ast.Load()))}):
+            if isinstance(val, Stop) or not isinstance(val, (list, tuple)):
+                return None
+            items = val if isinstance(val, list) else val[1]
+            try:
+                texts = [squash(ast.unparse(ex.term(x))) for x in items]
+            except Stop:
+                return None
+            if shown is None or N == 2:
+                shown = texts
+            if len(texts) != N + 1:
+                ok2 = False
+                continue
+            last = texts[-1]
+            idioms.add(last.replace('A0', 'm'))
+            for k, t in enumerate(texts[:-1]):
+                mt = None
+                for pt in pats:
+                    mt = mt or pt.match(t)
+                if not mt:
+                    ok3 = False
+                    continue
+                if int(mt.group(1)) != k:
+                    ok3 = False
+                if not (mt.group(2) == mt.group(3) == last):
+                    ok2 = False
+    idiom = sorted(idioms)[0] if len(idioms) == 1 else None
+    ok = idiom in NULLCOL_IDIOMS
+    return ok, ok2 and len(idioms) == 1, ok3, idiom or sorted(idioms), shown
+
+
 def check_remove_null_cols(chk, rule):
     """the index set kept by remove_null_cols is read from the structure of the first matrix (accepted idioms
     enumerated above), never from values (sums cancel, tolerances depend on units); every matrix is reduced by
@@ -705,6 +756,19 @@ def check_remove_null_cols(chk, rule):
     from .symval import Flow, strip_conversions
     m = module('compmech/sparse.py')
     fn = m.function('remove_null_cols')
+    tv = _null_cols_by_terms(m, fn)
+    if tv is not None:
+        ok, ok2, ok3, idiom, shown = tv
+        chk.ob(rule, ok, 'compmech/sparse.py', 'remove_null_cols', 'active amplitudes = columns of the first matrix with stored entries',
+               expected=sorted(NULLCOL_IDIOMS), got=idiom,
+               detail='' if ok else 'an active set computed from values drops columns whose entries cancel or fall under a tolerance (and depends on the units of the matrix)',
+               sample='remove_null_cols: used_cols = %s' % idiom)
+        chk.ob(rule, ok2, 'compmech/sparse.py', 'remove_null_cols', 'same index set for rows and columns of every matrix, returned last', got=shown)
+        chk.ob(rule, ok3, 'compmech/sparse.py', 'remove_null_cols', 'each reduced matrix is built from its own argument', line=fn.lineno,
+               expected='element i = (conversion of) the i-th argument sliced by used_cols in rows and columns', got=shown,
+               detail='' if ok3 else 'a matrix built from another argument silently replaces the mass / geometric matrix by the stiffness matrix',
+               sample='remove_null_cols: element i = ITEM(args)[used,:][:,used]')
+        return ok and ok2 and ok3
     fl = Flow(fn)
     fl.run()
     loops = [n for n in ast.walk(fn) if isinstance(n, ast.For)]
@@ -922,6 +986,50 @@ class TextAlt(str):
 
     def __hash__(self):
         return str.__hash__(self)
+
+
+def unrolled(fn):
+    """a copy of fn in which every loop over a literal sequence / range(<literal>) / enumerate or zip of literals is written out
+    (vcheck/equiv.py unroll, substitution mode only: the elements are stable in the loop body); rules about per-index tables look at
+    this view, so it does not matter whether the table is written as six lines or as a loop"""
+    import copy
+    from . import equiv
+    f = copy.deepcopy(fn)
+    nz = equiv.Normalizer(f, {})
+
+    def walk(stmts):
+        out = []
+        for st in stmts:
+            for fld in ('body', 'orelse', 'finalbody'):
+                b = getattr(st, fld, None)
+                if isinstance(b, list) and b and isinstance(b[0], ast.stmt) and not isinstance(st, (ast.FunctionDef, ast.ClassDef)):
+                    setattr(st, fld, walk(b))
+            if isinstance(st, ast.Try):
+                for h in st.handlers:
+                    h.body = walk(h.body)
+            if isinstance(st, ast.For):
+                try:
+                    un = nz.unroll(st)
+                except Exception:
+                    un = None
+                if un is not None and not any(isinstance(x, ast.Assign) and isinstance(x.targets[0], ast.Name) and x.targets[0].id.startswith('seq__u') for x in un):
+                    for x in un:
+                        for y in ast.walk(x):
+                            if isinstance(y, (ast.stmt, ast.expr)) and not hasattr(y, 'lineno'):
+                                y.lineno = y.end_lineno = st.lineno
+                                y.col_offset = y.end_col_offset = 0
+                    out += un
+                    continue
+            out.append(st)
+        return out
+    saved = equiv._KERNEL_ALIASES
+    equiv._KERNEL_ALIASES = equiv.find_kernel_aliases(f)
+    try:
+        f.body = walk(f.body)
+    finally:
+        equiv._KERNEL_ALIASES = saved
+    ast.fix_missing_locations(f)
+    return f
 
 
 def bound_texts(fn, mp):
